@@ -1,8 +1,8 @@
 """Deterministic sharded execution of an exhaustive case enumeration over forked workers.
 
-Every worker enumerates the *same* deterministic case sequence and executes the cases whose
-index is congruent to its worker number; results are merged by index, so the outcome does not
-depend on scheduling.  Nothing is sampled: every case of the enumeration is executed by
+Every worker enumerates the *same* deterministic case sequence and claims the next unclaimed
+case index from a shared counter; cases are independent and results are merged by index, so the
+outcome does not depend on scheduling.  Nothing is sampled: every case of the enumeration is executed by
 exactly one worker.
 """
 from __future__ import annotations
@@ -125,18 +125,26 @@ def _run_one(mod, case):
     return res
 
 
-def _worker(w, n, modname, tier, seed, conn):
+def _worker(w, n, modname, tier, seed, conn, counter):
     try:
         impl.setup_worker()
         mod = importlib.import_module(modname)
         if hasattr(mod, "setup"):
             mod.setup(tier, seed)
         agg = Agg()
+        # every worker walks the same deterministic enumeration and claims the next unclaimed index, so each case
+        # is executed exactly once whatever the relative speed of the workers (cases are independent of each other)
+        with counter.get_lock():
+            mine = counter.value
+            counter.value += 1
         for idx, case in enumerate(mod.cases(tier, seed)):
-            if idx % n != w:
+            if idx != mine:
                 continue
             res = _run_one(mod, case)
             agg.add(mod, idx, case, res)
+            with counter.get_lock():
+                mine = counter.value
+                counter.value += 1
         conn.send(("ok", agg.dump()))
     except BaseException:  # noqa: BLE001
         conn.send(("crash", traceback.format_exc()))
@@ -151,9 +159,10 @@ def run_parallel(modname, tier, seed, nworkers=None):
     nworkers = min(nworkers, getattr(mod, "MAX_WORKERS", nworkers))
     ctx = mp.get_context("fork")
     procs = []
+    counter = ctx.Value("q", 0)
     for w in range(nworkers):
         pc, cc = ctx.Pipe(duplex=False)
-        p = ctx.Process(target=_worker, args=(w, nworkers, modname, tier, seed, cc))
+        p = ctx.Process(target=_worker, args=(w, nworkers, modname, tier, seed, cc, counter))
         p.start()
         cc.close()
         procs.append((p, pc))
